@@ -83,6 +83,10 @@ class RuleRenderer:
             return f"(!{r(e['a'])})"
         if op == "ite":
             return f"(if {r(e['c'])} {{ {r(e['a'])} }} else {{ {r(e['b'])} }})"
+        if op == "blk":
+            env2 = env.copy()
+            env2.d[e["n"]] = ("val", "int")
+            return f"{{ let {e['n']} = {r(e['a'])}; {self.rx(e['b'], env2)} }}"
         if op == "some":
             return f"Some({r(e['a'])})"
         if op == "none":
